@@ -165,10 +165,12 @@ void snoopy_tsrm_dtor ()
  */
 void snoopy_tsrm_init ()
 {
-    // Initialize threadRepo mutex
+    // Initialize the mutexes (recursive: when fork() happens while this function is running in another
+    // thread, the child runs it again and ends up with the fork() handlers registered, and run, twice)
     pthread_mutexattr_init   (&snoopy_tsrm_threadRepo_mutexAttr);
     pthread_mutexattr_settype(&snoopy_tsrm_threadRepo_mutexAttr, PTHREAD_MUTEX_RECURSIVE);
     pthread_mutex_init       (&snoopy_tsrm_threadRepo_mutex, &snoopy_tsrm_threadRepo_mutexAttr);
+    pthread_mutex_init       (&snoopy_tsrm_forkUnsafeLibc_mutex, &snoopy_tsrm_threadRepo_mutexAttr);
 
     // Keep the thread repository usable in fork()ed children of multithreaded processes
     pthread_atfork(&snoopy_tsrm_atfork_prepare, &snoopy_tsrm_atfork_parent, &snoopy_tsrm_atfork_child);
@@ -221,7 +223,7 @@ void snoopy_tsrm_atfork_child ()
 
     // The mutexes are owned by a thread of the parent process, unlocking them here is not possible - start afresh
     pthread_mutex_init(&snoopy_tsrm_threadRepo_mutex, &snoopy_tsrm_threadRepo_mutexAttr);
-    pthread_mutex_init(&snoopy_tsrm_forkUnsafeLibc_mutex, NULL);
+    pthread_mutex_init(&snoopy_tsrm_forkUnsafeLibc_mutex, &snoopy_tsrm_threadRepo_mutexAttr);
 
     // Drop repo entries of threads that only exist in the parent
     myThreadId = snoopy_tsrm_getCurrentThreadId();
